@@ -928,6 +928,73 @@ def shape_multi_arg(rng):
     return pr
 
 
+def shape_neg_inv(rng):
+    """`not` below hypotheses that mention forall-bound variables: chalk inverts the placeholders
+    of the negated subgoal AND of its environment into existentials (the negative literal fails
+    iff SOME instantiation of the placeholders makes the subgoal derivable), which differs from
+    the generic-constant reading exactly when a hypothesis can be instantiated to feed the
+    negated goal.  Family around: impl Bar for A where A: Foo; impl<T> Bar for S<T> where T: Foo;
+    impl Foo for B."""
+    adts = [Adt("A"), Adt("B"), Adt("S", 1)]
+    tr = [Trait("Foo"), Trait("Bar")]
+    A, B = adt("A"), adt("B")
+    S = lambda t: adt("S", t)
+    im = [Impl(0, ("Bar", (A,)), [("Foo", (A,))]), Impl(1, ("Bar", (S(var(0)),)), [("Foo", (var(0),))]), Impl(0, ("Foo", (B,)))]
+    v = rng.randrange(4)
+    if v == 1:
+        im.append(Impl(1, ("Foo", (S(var(0)),)), [("Foo", (var(0),))]))
+    elif v == 2:
+        tr.append(Trait("Baz"))
+        im.append(Impl(1, ("Baz", (var(0),)), [("Bar", (var(0),))]))
+    elif v == 3:
+        im.append(Impl(0, ("Foo", (S(B),)), [("Bar", (B,))]))
+    pr = Prog(adts, tr, im, "neg-inv")
+    tys = [A, B, S(A), S(B), S(S(A))]
+    names = [t.name for t in tr]
+    goals = []
+    for _ in range(7):
+        nv = rng.choice([1, 1, 2])
+        vs = tuple(range(20 + 3 * len(goals), 20 + 3 * len(goals) + nv))
+        hyps = []
+        for x in vs:
+            r = rng.random()
+            arg = var(x) if r < 0.7 else S(var(x))
+            hyps.append(((), (rng.choice(names), (arg,)), ()))
+        if rng.random() < 0.25:
+            hyps.append(((), (rng.choice(names), (rng.choice(tys),)), ()))
+        neg = ("not", ("atom", (rng.choice(names), (rng.choice(tys),))))
+        r = rng.random()
+        if r < 0.5:
+            body = neg
+        elif r < 0.7:
+            body = ("and", (neg, ("atom", hyps[0][1])))
+        elif r < 0.85:
+            body = ("if", (((), (rng.choice(names), (rng.choice(tys),)), ()),), neg)
+        else:
+            body = ("and", (("atom", hyps[0][1]), neg, ("not", ("atom", (rng.choice(names), (rng.choice(tys),))))))
+        goals.append(("forall", vs, ("if", tuple(hyps), body)))
+    pr.fixed_goals = goals
+    return pr
+
+
+def neg_inv_shape(g, inscope=False):
+    """Python mirror of Inv.neg_inv_shape: a `not` in the scope of a hypothesis that mentions a goal variable"""
+    k = g[0]
+    if k == "not":
+        return inscope
+    if k == "and":
+        return any(neg_inv_shape(x, inscope) for x in g[1])
+    if k in ("forall", "exists"):
+        return neg_inv_shape(g[2], inscope)
+    if k == "if":
+        mention = False
+        for vs, h, body in g[1]:
+            if any(v not in vs for v in atom_vars(h)):
+                mention = True
+        return neg_inv_shape(g[2], inscope or mention)
+    return False
+
+
 def _rand_ty(rng, adts, nvars, depth):
     choices = []
     if nvars:
@@ -1000,7 +1067,7 @@ def shape_auto_mixed(rng):
 
 
 SHAPES = [shape_diamond, shape_ind_cycle, shape_mutual, shape_chain, shape_nested_chain, shape_poly_rec,
-          shape_overlap, shape_multi_arg, shape_co_cycle, shape_co_scc, shape_growing, shape_auto, shape_auto_mixed, shape_random, shape_random, shape_random]
+          shape_overlap, shape_multi_arg, shape_neg_inv, shape_co_cycle, shape_co_scc, shape_growing, shape_auto, shape_auto_mixed, shape_random, shape_random, shape_random]
 
 
 def gen_program(rng, shapes=None) -> Prog:
@@ -1077,10 +1144,29 @@ class GoalGen:
         g = ("and", tuple([("if", (((), h, ()),), g1)] + followers))
         return ("forall", scope, g) if under_forall else g
 
+    def neg_under_hyp(self):
+        """forall<..> { if (hypotheses mentioning the placeholders) { .. not { closed atom } .. } },
+        also nested `if`s and conjunctions (chalk's inversion of negative literals)."""
+        vs = tuple(self.fresh() for _ in range(self.rng.choice([1, 1, 2])))
+        hyps = tuple(((), self.atom((v,), 1.0), ()) for v in vs)
+        neg = ("not", self.ground_atom())
+        r = self.rng.random()
+        if r < 0.5:
+            body = neg
+        elif r < 0.7:
+            body = ("and", (neg, ("atom", hyps[0][1])))
+        elif r < 0.85:
+            body = ("if", (((), self.atom(), ()),), neg)
+        else:
+            body = ("and", (("atom", self.atom(vs, 0.8)), neg))
+        return ("forall", vs, ("if", hyps, body))
+
     def closed(self, depth=2):
         """An exists-free closed goal."""
         r = self.rng.random()
-        if depth == 2 and r < 0.15:
+        if depth == 2 and r < 0.08:
+            return self.neg_under_hyp()
+        if depth == 2 and r < 0.2:
             return self.if_follow()
         if depth <= 0 or r < 0.35:
             return self.ground_atom()
